@@ -339,6 +339,69 @@ fn main() {
         }
     }
 
+    // ---------------------------------------------------------------- C16: an output directory that cannot be created gets nothing, and nothing goes elsewhere
+    for mode in ["none", "zod"] {
+        rep.case("uncreatable_output_directory_writes_nothing", &format!("--output-path <proj>/blocker/gen where blocker is a file, OUT_DIR and TMPDIR set --validation {}", mode), &|| {
+            let p = project(&root, &format!("blocked_{}", mode), Some(conf_plain));
+            let pp = p.join("src-tauri");
+            fs::write(p.join("blocker"), "a file, not a directory\n").map_err(|e| e.to_string())?;
+            fs::create_dir_all(p.join("outdir")).map_err(|e| e.to_string())?;
+            fs::create_dir_all(p.join("tmp")).map_err(|e| e.to_string())?;
+            let before = snapshot(&p);
+            let out = Command::new(&cli).arg("tauri-typegen").args(["generate", "--project-path", pp.to_str().unwrap(), "--output-path", p.join("blocker/gen").to_str().unwrap(), "--validation", mode, "--force"])
+                .current_dir(&p).env("NO_COLOR", "1").env("OUT_DIR", p.join("outdir")).env("TMPDIR", p.join("tmp")).output().map_err(|e| e.to_string())?;
+            let after = snapshot(&p);
+            for (f, bytes) in &before { if after.get(f) != Some(bytes) { return Err(format!("{} was modified or removed", f)); } }
+            for f in after.keys() { if !before.contains_key(f) { return Err(format!("the run (status {:?}) created {} although the configured output directory cannot exist", out.status.code(), f)); } }
+            if out.status.code() == Some(0) { return Err("status 0 although no binding could be written to the configured output directory".into()); }
+            Ok(format!("status {:?}", out.status.code()))
+        });
+    }
+    // ---------------------------------------------------------------- C18: every mapping of the typegen section reaches the generator, whatever its target is
+    for mode in ["none", "zod"] {
+        rep.case("mappings_of_the_typegen_section_reach_the_generator", &format!("typeMappings {{ Level2: 'low' | 'high', Stamp: number, Ratio: -1 | 0 | 1, Handler: (x: number) => void }} in tauri.conf.json --validation {}", mode), &|| {
+            let p = project(&root, &format!("secmap_{}", mode), None);
+            let pp = p.join("src-tauri"); let gp = p.join("out");
+            fs::write(pp.join("src/lib.rs"), "use serde::{Serialize, Deserialize};\n#[derive(Serialize, Deserialize)]\npub enum Level2 { Low, High }\n#[derive(Serialize, Deserialize)]\npub struct Stamp { pub secs: u64 }\n#[derive(Serialize, Deserialize)]\npub struct Ratio { pub n: i8 }\n#[derive(Serialize, Deserialize)]\npub struct Handler { pub id: u32 }\n#[derive(Serialize, Deserialize)]\npub struct Visit { pub level: Level2, pub at: Stamp, pub ratio: Ratio, pub handler: Handler }\n#[tauri::command]\npub fn visit(v: Visit) -> u32 { 0 }\n").map_err(|e| e.to_string())?;
+            fs::write(pp.join("tauri.conf.json"), format!("{{ \"productName\": \"demo\", \"plugins\": {{ \"typegen\": {{ \"projectPath\": {:?}, \"outputPath\": {:?}, \"validationLibrary\": {:?}, \"typeMappings\": {{ \"Level2\": \"'low' | 'high'\", \"Stamp\": \"number\", \"Ratio\": \"-1 | 0 | 1\", \"Handler\": \"(x: number) => void\" }} }} }} }}\n", pp.to_string_lossy(), gp.to_string_lossy(), mode)).map_err(|e| e.to_string())?;
+            let (code, text) = run(&cli, &pp, &["generate", "--force"])?;
+            if code != 0 { return Err(format!("status {}: {}", code, text.chars().take(200).collect::<String>())); }
+            let t = fs::read_to_string(gp.join("types.ts")).map_err(|e| format!("no types.ts: {}", e))?;
+            for n in ["Level2", "Stamp", "Ratio", "Handler"] {
+                for decl in [format!("export interface {} ", n), format!("export type {} ", n), format!("export const {}Schema", n)] { if t.contains(&decl) { return Err(format!("types.ts declares `{}` although the typegen section maps {}", decl.trim(), n)); } }
+            }
+            Ok("ok".into())
+        });
+    }
+    // ---------------------------------------------------------------- C16: the configured output directory is found behind a root tauri.conf.json that has no typegen section
+    rep.case("configured_output_directory_is_found", "./tauri.conf.json without a typegen section, ./src-tauri/tauri.conf.json with one (outputPath = ./configured); generate without arguments", &|| {
+        let p = project(&root, "cfgsearch", None);
+        let pp = p.join("src-tauri");
+        fs::write(p.join("tauri.conf.json"), conf_plain).map_err(|e| e.to_string())?;
+        fs::write(pp.join("tauri.conf.json"), format!("{{ \"productName\": \"demo\", \"plugins\": {{ \"typegen\": {{ \"projectPath\": {:?}, \"outputPath\": {:?}, \"validationLibrary\": \"none\" }} }} }}\n", pp.to_string_lossy(), p.join("configured").to_string_lossy())).map_err(|e| e.to_string())?;
+        let before = snapshot(&p);
+        let (code, text) = run(&cli, &p, &["generate", "--force"])?;
+        if code != 0 && code != 1 { return Err(format!("status {}: {}", code, text.chars().take(200).collect::<String>())); }
+        let after = snapshot(&p);
+        for f in after.keys() { if !before.contains_key(f) && !f.starts_with("configured/") { return Err(format!("the run created {}: the typegen section of src-tauri/tauri.conf.json configures ./configured as output directory", f)); } }
+        if code == 0 && !after.contains_key("configured/types.ts") { return Err("status 0, but the configured output directory holds no types.ts".into()); }
+        Ok(format!("status {}", code))
+    });
+    // ---------------------------------------------------------------- C18 / C16: init keeps what it does not set (the type mappings of an existing section)
+    rep.case("init_keeps_the_settings_it_does_not_set", "init on a tauri.conf.json whose typegen section carries typeMappings { Stamp: number }", &|| {
+        let p = project(&root, "initkeep", None);
+        let pp = p.join("src-tauri"); let gp = p.join("src/generated");
+        fs::write(pp.join("src/lib.rs"), "use serde::{Serialize, Deserialize};\n#[derive(Serialize, Deserialize)]\npub struct Stamp { pub secs: u64 }\n#[tauri::command]\npub fn now() -> Stamp { todo!() }\n").map_err(|e| e.to_string())?;
+        fs::write(pp.join("tauri.conf.json"), format!("{{ \"productName\": \"demo\", \"plugins\": {{ \"typegen\": {{ \"projectPath\": {:?}, \"outputPath\": {:?}, \"validationLibrary\": \"none\", \"typeMappings\": {{ \"Stamp\": \"number\" }} }} }} }}\n", pp.to_string_lossy(), gp.to_string_lossy())).map_err(|e| e.to_string())?;
+        let (code, text) = run(&cli, &p, &["init", "--project-path", pp.to_str().unwrap(), "--generated-path", gp.to_str().unwrap(), "--validation", "none"])?;
+        if code != 0 && code != 1 { return Err(format!("status {}: {}", code, text.chars().take(200).collect::<String>())); }
+        let conf: String = fs::read_to_string(pp.join("tauri.conf.json")).map_err(|e| e.to_string())?;
+        let flat: String = conf.chars().filter(|c| !c.is_whitespace()).collect();
+        if !flat.contains("\"typeMappings\":{\"Stamp\":\"number\"}") { return Err(format!("after init the typegen section no longer maps Stamp to number: {}", flat.chars().take(300).collect::<String>())); }
+        if let Ok(c) = fs::read_to_string(gp.join("commands.ts")) { if c.contains("types.Stamp") { return Err("the bindings init generated refer to types.Stamp although the section maps Stamp to number".into()); } }
+        Ok("ok".into())
+    });
+
     // ---------------------------------------------------------------- C04: the parameter case configured in the typegen section of tauri.conf.json (what the build script reads)
     for mode in ["none", "zod"] {
         rep.case("configured_parameter_case_reaches_the_cli", &format!("--validation {} plugins.typegen.defaultParameterCase = snake_case in tauri.conf.json, no --config", mode), &|| {
